@@ -1,56 +1,92 @@
 (* Proof obligations of property C17 (DESIGN 4.17).  Statements only; proofs in Proofs/C17_Layout.v (generic) and
    Proofs/C17_Instances.v (criteria evaluated on the layouts regenerated from the source, Gen/C17_WriterLayouts.v). *)
 From Coq Require Import Ascii String List Bool Arith ZArith QArith Lia.
-From Verif Require Import Lib.Text Lib.Decimal Lib.Dyadic Model.C17_Layout Gen.C17_WriterLayouts Proofs.C17_Layout Proofs.C17_Instances.
+From Verif Require Import Lib.Text Lib.Decimal Lib.Dyadic Model.C17_Layout Gen.C17_WriterLayouts Proofs.C17_Layout Proofs.C17_Sound Proofs.C17_Instances.
 Import ListNotations.
 Local Open Scope string_scope.
 
-(* ---- writer / parser pairs: the column -> field map every parser column obtains (None = not readable) *)
-Theorem compatible_bernese_crd :
-  span_map L_crd P_crd = [Some (PFld 0); Some (PFld 1); Some (PFld 2); Some (PFld 3); Some (PFld 4); Some (PFld 5); Some (PConst "A")].
-Proof. exact compatible_bernese_crd_l. Qed.
+(* ---- the generic theorem: for EVERY layout, column table and record: if the decidable criterion [compatible] holds and the
+   values fit their columns, the fixed-column parser returns, column by column, the stripped formatted value of the field
+   (or the literal) that [span_map] states *)
+Theorem layout_compatible_sound : forall lay spans cs,
+  compatible lay spans = true -> fits lay cs = true ->
+  parse_slices spans (render_c lay cs) = map (expected1 cs) (span_map lay spans).
+Proof. exact layout_compatible_sound_l. Qed.
+Print Assumptions layout_compatible_sound.
+
+Theorem layout_compatible_values : forall lay spans vals,
+  compatible lay spans = true -> fits lay (contents lay vals) = true ->
+  parse_slices spans (render_line lay vals) = map (expected1 (contents lay vals)) (span_map lay spans).
+Proof. exact layout_compatible_values_l. Qed.
+Print Assumptions layout_compatible_values.
+
+(* ... and to printed precision: float() of a numeric column is the correctly rounded decimal the writer printed *)
+Theorem column_reads_printed_value : forall lay spans vals k i d m e,
+  compatible lay spans = true -> fits lay (contents lay vals) = true ->
+  nth k (span_map lay spans) None = Some (PFld i) ->
+  nth i (contents lay vals) "" = py_fix d (Dy m e) ->
+  (fix_mant d m e <> 0 \/ 0 < m)%Z ->
+  parse_float (nth k (parse_slices spans (render_line lay vals)) "") = Some (dec_value (fix_mant d m e) d).
+Proof. exact column_reads_printed_value_l. Qed.
+Print Assumptions column_reads_printed_value.
+
+(* ---- writer / parser pairs, on the layouts and column tables regenerated from the current source: the round trip for ALL
+   records whose values fit ([C n cs] = strip of the formatted value of field n) *)
+Theorem compatible_bernese_crd : forall vals, let cs := contents L_crd vals in fits L_crd cs = true ->
+  parse_slices P_crd (render_line L_crd vals) = [C 0 cs; C 1 cs; C 2 cs; C 3 cs; C 4 cs; C 5 cs; "A"].
+Proof. exact roundtrip_bernese_crd_l. Qed.
 Print Assumptions compatible_bernese_crd.
 
-Theorem compatible_bernese_clu : span_map L_clu P_clu = [Some (PFld 0); Some (PConst ""); Some (PConst "1")].
-Proof. exact compatible_bernese_clu_l. Qed.
+Theorem crd_reads_printed_coordinate : forall vals k d m e,
+  fits L_crd (contents L_crd vals) = true -> (3 <= k <= 5)%nat ->
+  nth k (contents L_crd vals) "" = py_fix d (Dy m e) -> (fix_mant d m e <> 0 \/ 0 < m)%Z ->
+  parse_float (nth k (parse_slices P_crd (render_line L_crd vals)) "") = Some (dec_value (fix_mant d m e) d).
+Proof. exact crd_reads_printed_coordinate_l. Qed.
+Print Assumptions crd_reads_printed_coordinate.
+
+Theorem compatible_bernese_clu : forall vals, let cs := contents L_clu vals in fits L_clu cs = true ->
+  parse_slices P_clu (render_line L_clu vals) = [C 0 cs; ""; "1"].
+Proof. exact roundtrip_bernese_clu_l. Qed.
 Print Assumptions compatible_bernese_clu.
 
-Theorem compatible_bernese_sta_v52 :
-  span_map L_sta2 P_sta52 =
-  [Some (PFld 0); Some (PFld 1); Some (PConst "001"); Some (PFld 2); Some (PFld 3); Some (PFld 4); Some (PFld 5); Some (PFld 6);
-   Some (PFld 7); Some (PFld 8); Some (PFld 9); Some (PFld 10); Some (PFld 11); Some (PFld 12); Some (PFld 13); Some (PFld 14);
-   Some (PFld 15)].
-Proof. exact compatible_bernese_sta_v52_l. Qed.
+Theorem compatible_bernese_sta_v52 : forall vals, let cs := contents L_sta2 vals in fits L_sta2 cs = true ->
+  parse_slices P_sta52 (render_line L_sta2 vals) =
+  [C 0 cs; C 1 cs; "001"; C 2 cs; C 3 cs; C 4 cs; C 5 cs; C 6 cs; C 7 cs; C 8 cs; C 9 cs; C 10 cs; C 11 cs; C 12 cs; C 13 cs;
+   C 14 cs; C 15 cs].
+Proof. exact roundtrip_bernese_sta_v52_l. Qed.
 Print Assumptions compatible_bernese_sta_v52.
 
 Theorem bernese_sta_v54_incompatible : compatible L_sta2 P_sta54 = false.
 Proof. exact bernese_sta_v54_incompatible_l. Qed.
 Print Assumptions bernese_sta_v54_incompatible.
 
-Theorem compatible_tms_header :
-  span_map L_tms_header P_tms_header =
-  [Some (PFld 0); Some (PFld 1); Some (PFld 2); Some (PFld 3); Some (PFld 4); Some (PFld 5); Some (PFld 6); Some (PFld 7)].
-Proof. exact compatible_tms_header_l. Qed.
+Theorem compatible_tms_header : forall vals, let cs := contents L_tms_header vals in fits L_tms_header cs = true ->
+  parse_slices P_tms_header (render_line L_tms_header vals) = [C 0 cs; C 1 cs; C 2 cs; C 3 cs; C 4 cs; C 5 cs; C 6 cs; C 7 cs].
+Proof. exact roundtrip_tms_header_l. Qed.
 Print Assumptions compatible_tms_header.
 
 Theorem compatible_tms_file_reference :
-  map (fun l => span_map l P_tms_file_reference)
-      [L_tms_fr_description; L_tms_fr_contact; L_tms_fr_software; L_tms_fr_input; L_tms_fr_version] =
-  [[Some (PConst "DESCRIPTION"); Some (PFld 0)]; [Some (PConst "CONTACT"); Some (PFld 0)]; [Some (PConst "SOFTWARE"); Some (PFld 0)];
-   [Some (PConst "INPUT"); Some (PFld 0)]; [Some (PConst "VERSION NUMBER"); Some (PFld 0)]].
-Proof. exact compatible_tms_file_reference_l. Qed.
+  (forall vals, let cs := contents L_tms_fr_description vals in fits L_tms_fr_description cs = true ->
+     parse_slices P_tms_file_reference (render_line L_tms_fr_description vals) = ["DESCRIPTION"; C 0 cs]) /\
+  (forall vals, let cs := contents L_tms_fr_contact vals in fits L_tms_fr_contact cs = true ->
+     parse_slices P_tms_file_reference (render_line L_tms_fr_contact vals) = ["CONTACT"; C 0 cs]) /\
+  (forall vals, let cs := contents L_tms_fr_software vals in fits L_tms_fr_software cs = true ->
+     parse_slices P_tms_file_reference (render_line L_tms_fr_software vals) = ["SOFTWARE"; C 0 cs]) /\
+  (forall vals, let cs := contents L_tms_fr_input vals in fits L_tms_fr_input cs = true ->
+     parse_slices P_tms_file_reference (render_line L_tms_fr_input vals) = ["INPUT"; C 0 cs]) /\
+  (forall vals, let cs := contents L_tms_fr_version vals in fits L_tms_fr_version cs = true ->
+     parse_slices P_tms_file_reference (render_line L_tms_fr_version vals) = ["VERSION NUMBER"; C 0 cs]).
+Proof. exact roundtrip_tms_file_reference_l. Qed.
 Print Assumptions compatible_tms_file_reference.
 
-Theorem compatible_tms_ref_coordinate :
-  span_map L_tms_refcoord P_tms_refcoord =
-  [Some (PFld 0); Some (PConst "A"); Some (PConst "----"); Some (PConst "P"); Some (PFld 1); Some (PFld 2); Some (PFld 3);
-   Some (PFld 4); Some (PFld 5)].
-Proof. exact compatible_tms_ref_coordinate_l. Qed.
+Theorem compatible_tms_ref_coordinate : forall vals, let cs := contents L_tms_refcoord vals in fits L_tms_refcoord cs = true ->
+  parse_slices P_tms_refcoord (render_line L_tms_refcoord vals) = [C 0 cs; "A"; "----"; "P"; C 1 cs; C 2 cs; C 3 cs; C 4 cs; C 5 cs].
+Proof. exact roundtrip_tms_ref_coordinate_l. Qed.
 Print Assumptions compatible_tms_ref_coordinate.
 
-Theorem compatible_tms_columns :
-  span_map L_tms_columns P_tms_columns = [Some (PFld 0); Some (PFld 1); Some (PFld 2); Some (PFld 3)].
-Proof. exact compatible_tms_columns_l. Qed.
+Theorem compatible_tms_columns : forall vals, let cs := contents L_tms_columns vals in fits L_tms_columns cs = true ->
+  parse_slices P_tms_columns (render_line L_tms_columns vals) = [C 0 cs; C 1 cs; C 2 cs; C 3 cs].
+Proof. exact roundtrip_tms_columns_l. Qed.
 Print Assumptions compatible_tms_columns.
 
 (* ---- SINEX-TMS block markers *)
@@ -128,3 +164,10 @@ Print Assumptions fix_readback.
 (* non-vacuity: "%12.4f" % 999999.9999 has 11 characters (fits with a blank), 1000000.0 has 12 (no blank left) *)
 Example east_fits : (len (render_F_raw 4 9999999999) < 12)%nat /\ ~ (len (render_F_raw 4 10000000000) < 12)%nat.
 Proof. split; vm_compute; lia. Qed.
+
+(* non-vacuity of the round trip: a concrete CRD record fits and reads back *)
+Example crd_roundtrip_example :
+  let vals := [VI 1; VS "ADAC"; VS "10337M001"; VF (Dy 1 (-6)); VF (Dy (-5) (-1)); VF (Dy 123456789 (-4))] in
+  fits L_crd (contents L_crd vals) = true /\
+  parse_slices P_crd (render_line L_crd vals) = ["1"; "ADAC"; "10337M001"; "0.01562"; "-2.50000"; "7716049.31250"; "A"].
+Proof. vm_compute. split; reflexivity. Qed.
